@@ -25,3 +25,13 @@ for c in $CID $EXTRA; do
 done
 echo "{\"demo_clean_rc\": $RC0, \"demo_changed_rc\": $RC1, \"checks\": \"$RES\", \"tier\": \"${TIER:-quick}\", \"base\": \"$(git -C /repo log --format=%h -1)\"}" > $OUT/result.json
 rm -rf $OUT/replays/*/violation_[1-9]*.json 2>/dev/null  # keep one replay per run as the record
+# meta.json merged: the author's description + what we ran to confirm it
+python3 - "$OUT" "$CID" <<'PY'
+import json, sys, os
+out, cid = sys.argv[1], sys.argv[2]
+a = json.load(open(os.path.join(out, "meta.author.json"))); r = json.load(open(os.path.join(out, "result.json")))
+json.dump({"property": cid, "what": a.get("what"), "needs": a.get("needs"), "author_test_suite_line": a.get("tests"),
+           "confirmed": {"demo_on_clean_tree_exit": r["demo_clean_rc"], "demo_with_change_exit": r["demo_changed_rc"],
+                         "base_commit": r["base"], "how": "tools/seedtest.sh: scratch git worktree of /repo HEAD, demo run clean and after `git apply patch.diff`, then ./check <id> --tier %s with ONSAGER_REPO pointing at the changed tree; worktree removed afterwards" % r["tier"],
+                         "checks": r["checks"].split()}}, open(os.path.join(out, "meta.json"), "w"), indent=1)
+PY
